@@ -13,7 +13,7 @@ PROPS = ['Props/Properties_C26.v']
 EXTRACT = """From Coq Require Import Extraction ExtrOcamlBasic.
 Require Import C26_Model C26_Ptr.
 Extraction "c26model.ml" step sstep run srun init_world observe ext_op live_count
-  pstep pspec_step pinit pobserve.
+  pstep pspec_step pinit pobserve plive wstep.
 """
 
 # ---------------------------------------------------------------------------------------------- generator
@@ -169,9 +169,14 @@ def split_sequences(out):
         elif cur is not None and l: cur.append(l)
     return seqs
 
+GUARD = []     # ['guard'] when Array.h has the isOwnElement repair; passed to the model driver
+
 def run_both(ctx, text, drv, exe, extra=()):
-    rc1, o1, e1 = sh([drv] + list(extra), input=text, timeout=1200)
+    rc1, o1, e1 = sh([drv] + GUARD + list(extra), input=text, timeout=1200)
     rc2, o2, e2 = sh([exe], input=text, timeout=1200)
+    for _ in range(3):            # the shared libraries may be in the middle of a relink by a concurrent bin/build_repo
+        if rc2 != 127: break
+        import time as _t; _t.sleep(10); rc2, o2, e2 = sh([exe], input=text, timeout=1200)
     if rc1 != 0: ctx.broken.append(('correspondence:driver', 'model driver failed rc=%d %s' % (rc1, e1[-300:])))
     if rc2 != 0: ctx.broken.append(('correspondence:harness', 'C++ harness failed rc=%d %s' % (rc2, e2[-300:])))
     return o1, o2
@@ -235,6 +240,12 @@ def run(ctx):
         ctx.broken.append(('ocaml', 'driver does not build')); ctx.finish()
     drv = os.path.join(exd, 'drv'); ptrdrv = os.path.join(exd, 'ptrdrv')
     thorough = ctx.tier == 'thorough'
+    # which of the two proved variants of the model describes the source: Array.h as it is (guard = false), or with the
+    # repair of patches/C26_alias_value.diff (guard = true; recognised by its helper isOwnElement)
+    src = open(os.path.join(REPO, 'SimTKcommon/include/SimTKcommon/internal/Array.h')).read()
+    if 'isOwnElement' in src:
+        GUARD.append('guard'); ctx.notes.append('Array.h has the isOwnElement repair: guarded model variant (guard = true) used')
+    ctx.extra['model_variant'] = 'guard=true (isOwnElement repair present)' if GUARD else 'guard=false (Array.h as it is)'
 
     # ---------------- 1. corpus + random sequences with outside values: model == Array_, Array_ == std::vector
     seqs = []; kinds = {}
@@ -333,7 +344,7 @@ def alias_part(ctx, drv, exe, nseq):
         seqs.append(gen_sequence(ctx.rng, 'c', 1, ctx.rng.randint(2, 25), alias=True)[0])
     text = '\n'.join('\n'.join(s) for s in seqs) + '\n'
     om, oc = run_both(ctx, text, drv, exe)
-    ox, _ = sh([drv, 'exact'], input=text, timeout=600)[1], None
+    ox, _ = sh([drv, 'exact'] + GUARD, input=text, timeout=600)[1], None
     sm = split_sequences(om); sc = split_sequences(oc); sx = split_sequences(ox)
     stats = {'sequences': len(seqs), 'witness_files': nw, 'agree_with_model': 0, 'faults': {}, 'wrong_value': {}, 'clean': 0}
     for i, s in enumerate(seqs):
@@ -357,6 +368,7 @@ def alias_part(ctx, drv, exe, nseq):
         kind = 'faults' if fault != 'wrong-value' else 'wrong_value'
         stats[kind][name] = stats[kind].get(name, 0) + 1
         key = ALIAS_KEYS.get(name, 'alias-' + name) + ('-wrong-value' if fault == 'wrong-value' else '-dead-read')
+        if GUARD: key = 'impl:repair-incomplete-' + key      # with the repair in place nothing of this is a known finding
         ctx.report(key, 'Array_ %s with a value that refers to an element of the array itself: %s (model: %s)' % (name, what, fault),
                    {'failing_input': s, 'what_failed': what, 'model_fault': fault,
                     'replay_cmd': 'printf "%s\\n" | %s' % ('\\n'.join(s), exe)})
